@@ -2,6 +2,10 @@
 //! and writes ndjson traces that TLC validates against the TLA+ specification.
 
 mod drivers;
+#[cfg(feature = "derive")]
+mod generated;
+mod ledger;
+mod faults;
 mod likes;
 mod mutate;
 mod recin;
@@ -10,6 +14,9 @@ mod rng;
 mod types;
 
 use drivers::*;
+
+#[global_allocator]
+static GLOBAL: ledger::Ledger = ledger::Ledger;
 use parity_scale_codec::{Compact, OptionBool};
 use std::borrow::Cow;
 use std::collections::{BTreeMap, BTreeSet, BinaryHeap, LinkedList, VecDeque};
@@ -186,6 +193,9 @@ fn enc_one<T: reg::Reg + parity_scale_codec::Encode>(ctx: &mut Ctx) {
 fn entries_one<T: reg::Reg + parity_scale_codec::Encode>(ctx: &mut Ctx) {
 	drive_entries::<T>(ctx)
 }
+fn heap_one<T: reg::Reg + parity_scale_codec::Encode + parity_scale_codec::Decode>(ctx: &mut Ctx) {
+	drive_heap::<T>(ctx)
+}
 fn rt_one<T: reg::Reg + parity_scale_codec::Encode + parity_scale_codec::Decode>(ctx: &mut Ctx) {
 	drive_rt::<T>(ctx, None)
 }
@@ -239,7 +249,28 @@ fn main() {
 			"C02" => {
 				each_codec_type!(rt_one, (&mut ctx));
 				each_seq_type!(rt_seq, (&mut ctx));
+				drive_rt_exhausted(&mut ctx);
 			},
+			"C05" => {
+				#[cfg(feature = "derive")]
+				{
+					each_generated_type!(enc_one, (&mut ctx));
+					each_generated_type!(rt_one, (&mut ctx));
+					each_generated_type!(dec_one, (&mut ctx));
+					each_feature_type!(enc_one, (&mut ctx));
+					each_feature_type!(rt_one, (&mut ctx));
+					let mut g = rng::G::new(ctx.seed);
+					for (tn, alts, r) in generated::skipped_values(&mut g) {
+						let rec = match r {
+							Ok(out) => serde_json::json!({"k":"skipenc","tn":tn,"res":"ok","out":out,"alts":alts}),
+							Err(()) => serde_json::json!({"k":"skipenc","tn":tn,"res":"panic","out":[],"alts":alts}),
+						};
+						ctx.emit(&tn, rec);
+					}
+				}
+			},
+			"C09" => { each_codec_type!(heap_one, (&mut ctx)); #[cfg(feature = "derive")] heap_one::<Vec<types::SZ>>(&mut ctx); },
+			"C10" => { faults::drive(&mut ctx); },
 			"C07" => {
 				each_codec_type!(entries_one, (&mut ctx));
 				each_seq_type!(rt_seq, (&mut ctx));
@@ -278,6 +309,8 @@ fn main() {
 			"C13" => {
 				#[cfg(feature = "max-encoded-len")]
 				each_mel_type!(mel_one, (&mut ctx));
+				#[cfg(all(feature = "max-encoded-len", feature = "derive"))]
+				each_generated_mel_type!(mel_one, (&mut ctx));
 				each_codec_type!(fixed_one, (&mut ctx));
 			},
 			"C04" => { drivers::compact::drive(&mut ctx, &part); },
